@@ -145,6 +145,11 @@ type Run struct {
 	InitReq abci.RequestInitChain
 	NoPanicGuard bool // C11 owns panics: report them as violations
 	Canon []*BlockRecord
+	ledgerTag    string
+	ledgerCache  *Ledger
+	LastBegin    abci.ResponseBeginBlock
+	LastEvidence []Evidence
+	PendingDogfoodUndelegations []string
 }
 
 func (r *Run) Logf(f string, a ...interface{}) {
@@ -319,7 +324,9 @@ func (r *Run) Execute() {
 			m.Finish(r)
 		}
 	}
-	r.Stats.SimSeconds = int64(r.Chain.Time.Sub(r.W.GenesisTime) / time.Second)
+	if r.Chain != nil {
+		r.Stats.SimSeconds = int64(r.Chain.Time.Sub(r.W.GenesisTime) / time.Second)
+	}
 }
 
 // ExecBlock executes one block of the plan on the primary node.
@@ -401,11 +408,21 @@ func (r *Run) ExecBlock(bi int, b Block) {
 	// (handled by specific monitors through ops flagged in b.CheckTx)
 
 	r.phase = "BeginBlock"
-	if _, p := n.BeginBlock(c.BeginBlockRequest(hdr, votes, evs)); p != nil {
+	bbRes, p := n.BeginBlock(c.BeginBlockRequest(hdr, votes, evs))
+	if p != nil {
 		r.onPanic(p)
 		return
 	}
+	r.LastBegin = bbRes
+	r.LastEvidence = evs
+	r.PendingDogfoodUndelegations = nil
+	if r.Node.App.StakingKeeper.IsEpochEnd(n.DeliverCtx(c)) {
+		for _, k := range r.Node.App.StakingKeeper.GetPendingUndelegations(n.DeliverCtx(c)).List {
+			r.PendingDogfoodUndelegations = append(r.PendingDogfoodUndelegations, string(k))
+		}
+	}
 	ctx := n.DeliverCtx(c)
+	r.phase = "AfterBeginBlock"
 	for _, m := range r.Mons {
 		m.AfterBeginBlock(r, ctx)
 		if r.Viol != nil {
@@ -433,9 +450,11 @@ func (r *Run) ExecBlock(bi int, b Block) {
 			}
 		}
 		r.History = append(r.History, bt)
+		r.phase = "BeforeTx"
 		for _, m := range r.Mons {
 			m.BeforeTx(r, ctx, bt)
 		}
+		r.phase = "DeliverTx"
 		resp, p := n.DeliverTx(bt.Bytes)
 		if p != nil {
 			r.onPanic(p)
@@ -454,6 +473,7 @@ func (r *Run) ExecBlock(bi int, b Block) {
 			r.Stats.OpOutcomes[op.K+":fail"]++
 		}
 		ctx = n.DeliverCtx(c)
+		r.phase = "AfterTx"
 		for _, m := range r.Mons {
 			m.AfterTx(r, ctx, tr)
 			if r.Viol != nil {
@@ -469,6 +489,14 @@ func (r *Run) ExecBlock(bi int, b Block) {
 		return
 	}
 	rec.ValUpdates = eb.ValidatorUpdates
+	if r.Verbose {
+		for _, t := range r.Results {
+			if t.Height == h {
+				r.Logf("  h=%d tx %s ok=%v code=%d %s", h, t.Op, t.OK, t.Resp.Code, firstN(firstLine(t.Resp.Log), 120))
+			}
+		}
+		r.Logf("h=%d t=%s updates=%v absent=%d evid=%d", h, hdr.Time.Format("15:04:05.000"), eb.ValidatorUpdates, len(absent), len(evs))
+	}
 	rec.ConsParams = eb.ConsensusParamUpdates
 	if err := c.ApplyEndBlock(h, eb.ValidatorUpdates); err != nil {
 		// the consensus engine would halt here
@@ -480,6 +508,7 @@ func (r *Run) ExecBlock(bi int, b Block) {
 		return
 	}
 	ctx = n.DeliverCtx(c)
+	r.phase = "AfterEndBlock"
 	for _, m := range r.Mons {
 		m.AfterEndBlock(r, ctx, eb)
 		if r.Viol != nil {
@@ -595,3 +624,18 @@ func sortedKeys(m map[string]int) []string {
 }
 
 var _ = tmproto.Header{}
+
+// Ledger returns the ledger snapshot of the current observation point (cached per point).
+func (r *Run) Ledger(ctx sdk.Context) *Ledger {
+	tag := fmt.Sprintf("%d/%d/%s", r.curBlock, r.curOp, r.phase)
+	if r.ledgerCache != nil && r.ledgerTag == tag {
+		return r.ledgerCache
+	}
+	l, err := r.TakeLedger(ctx)
+	if err != nil {
+		r.abort("ledger-getter-error: " + err.Error())
+		l = emptyLedger()
+	}
+	r.ledgerTag, r.ledgerCache = tag, l
+	return l
+}
